@@ -5,7 +5,7 @@
    (Neo.import_links, an executable model of get_model's reconstruction from the two query results) are compared with
    the implementation on every generated case (Neo.neo_import_check), not proved. No database runs: the driver is
    replaced by a recording stand-in that answers the two fixed queries with Cypher's semantics. *)
-From MT Require Import Prelude Codec ModelIO Legacy Neo.
+From MT Require Import Prelude Codec ModelIO Model ModelOps ModelInv ModelLoad ModelLoadThm Legacy PairLoad Neo.
 
 Theorem C19_one_node_per_asset : forall c n,
   In n (export_nodes c) <-> exists a, In a (c_assets c) /\ n = (string_of_Z (ca_id a), ca_name a, ca_type a).
@@ -23,6 +23,15 @@ Print Assumptions C19_relationships_exact.
 Theorem C19_two_relationships_per_linked_pair : forall c, List.length (export_rels c) = 2 * List.length (pairs_of c).
 Proof. exact export_rels_count. Qed.
 Print Assumptions C19_two_relationships_per_linked_pair.
+
+(* get_model adds one association object per linked pair: the content it is meant to rebuild — the exported content with
+   every association split into its pairs — is loadable whenever the exported one is, and the rebuild through the Model
+   API yields a coherent model with exactly that content (the reading of the two query results, Neo.import_links, is
+   compared with the implementation on every case) *)
+Theorem C19_import_rebuild : forall defaults c, loadable defaults c = true ->
+  exists s, load defaults (pairs_content c) = (s, MOk) /\ MI s /\ content_of defaults (c_name c) s = pairs_content c.
+Proof. exact pairs_rebuild. Qed.
+Print Assumptions C19_import_rebuild.
 
 (* non-vacuity, and the import on an example with two assets linked in both directions through a reflexive
    association and through a second association *)
